@@ -45,23 +45,30 @@ if not a.skip_verify:
         shutil.copy(f'{wt}/seeded_notes.md', f'{dest}/notes.md')
 else:
     meta = json.load(open(f'{dest}/meta.json'))
-# run checks against /repo with the patch
-assert not run(['git', '-C', '/repo', 'status', '--porcelain', '--untracked-files=no']).stdout.strip(), 'repo dirty'
-r = run(['git', '-C', '/repo', 'apply', f'{dest}/patch.diff']); assert r.returncode == 0, r.stderr
+# run the checks against a scratch worktree of /repo's HEAD with the patch
+# applied (PYCEL_REPO_SRC), so that /repo itself and checks running against it
+# are never disturbed; the result is the same as `git -C /repo apply` + check +
+# `git -C /repo checkout -- .`
+ev = f'/tmp/wt-seedeval-{name}'
+run(['git', '-C', '/repo', 'worktree', 'remove', '--force', ev])
+r = run(['git', '-C', '/repo', 'worktree', 'add', '--detach', ev, 'HEAD']); assert r.returncode == 0, r.stderr
+r = run(['git', '-C', ev, 'apply', f'{dest}/patch.diff']); assert r.returncode == 0, r.stderr
 results = meta.get('checks', {})
+cenv = dict(os.environ, PYCEL_REPO_SRC=f'{ev}/src')
 try:
     for c in (a.checks.split(',') if a.checks else [a.pid]):
         t0 = time.time()
-        rr = run(['./check', c], cwd='/verif')
+        rr = run(['./check', c], cwd='/verif', env=cenv)
         lines = rr.stdout.strip().splitlines()
         viol = [l for l in lines if l.startswith('VIOLATION')]
         klass = next((l.strip() for l in lines if l.startswith('  class:')), '')
         results[c] = dict(exit=rr.returncode, violations=len(viol), first_class=klass, wall=round(time.time()-t0, 1))
         print(f'{c}: exit={rr.returncode} violations={len(viol)} {klass[:150]}')
 finally:
-    run(['git', '-C', '/repo', 'checkout', '--', '.'])
+    run(['git', '-C', '/repo', 'worktree', 'remove', '--force', ev])
     for c in results: shutil.rmtree(f'/verif/replays/{c}/found', ignore_errors=True)
 meta['checks'] = results
 meta['what_we_ran'] = ('suite in scratch worktree with patch; demo with and without patch; '
-                       './check <ID> (quick tier, seed 1) with the patch applied to /repo, then git checkout')
+                       './check <ID> (quick tier, seed 1) against a scratch worktree of /repo HEAD '
+                       'with the patch applied (PYCEL_REPO_SRC), worktree removed afterwards')
 json.dump(meta, open(f'{dest}/meta.json', 'w'), indent=1)
